@@ -81,6 +81,8 @@ func runC12(c *Ctx) {
 	c12OptionsTypesComplete(c, pk)
 	c12FilterOnce(c)
 	c12FieldTypeChecked(c, pk)
+	c12PackageMeansPackage(c, pk)
+	c12KeptUnlessExcluded(c, pk)
 	c12IndexTotal(c, pk)
 	batchKeyRule(c, "BATCH-KEY")
 	c12PathIndexPositional(c, pk)
